@@ -671,7 +671,7 @@ def _lk_none(cx, inst, b, loc):
 
 PANIC_TABLE = [
     # (fn path regex, callee, operand regex, reason, linked check)
-    (r"half_connection::packet_sender::PacketSender::acknowledge", "Option::unwrap", r"arg1\.window\[.*\]", "slots in [base_id,next_id) are occupied (class invariant); bounded by the delta<=span guard and the id-domain rule", _lk_sender_slot_unwrap),
+    (r"half_connection::packet_sender::PacketSender::acknowledge", "Option::unwrap", r"(Option::take\()?arg1\.window\[.*\]\)?", "slots in [base_id,next_id) are occupied (class invariant); bounded by the delta<=span guard and the id-domain rule", _lk_sender_slot_unwrap),
     (r"half_connection::packet_sender::PacketSender::acknowledge", "RefCell::borrow", r".*\.packet", "shared borrow; RefCell discipline rule C03.P.refcell", _lk_none),
     (r"half_connection::packet_receiver::PacketReceiver::receive", "Option::unwrap", r"Option::take\(arg1\.data_entries\[.*\]\.data\)", "entry must be known to carry data", _lk_receive_take_unwrap),
     (r"half_connection::packet_receiver::assembly_window::AssemblyWindow::try_add", "rt::begin_panic", r".*", "`_ => panic!()` after mem::replace: slot matched Active in the enclosing arm", _lk_try_add_panic),
@@ -682,7 +682,7 @@ PANIC_TABLE = [
     (r"half_connection::HalfConnection::emit_data_frames", "RefCell::borrow", r".*", "shared borrow; RefCell discipline rule", _lk_none),
     (r"half_connection::send_rate::SendRateComp::(handle_feedback|nofeedback_expired)", "rt::begin_panic", r".*", "`_ => panic!()` on AwaitSend: step() returns on AwaitSend first and is the only caller", _lk_panic_mode),
     (r"half_connection::send_rate::SendRateComp::nofeedback_expired", "Option::unwrap", r"arg1\.rtt_s", "mode == ThroughputEqn implies update_rtt ran", _lk_rtt_unwrap),
-    (r"half_connection::recv_rate_set::RecvRateSet::max", "Option::unwrap", r"\[T\]::first\(arg1\.entries\)", "set is non-empty after every mutator", _lk_recv_set_nonempty),
+    (r"half_connection::recv_rate_set::RecvRateSet::max", "Option::unwrap", r"\[T\]::(first|split_first|last|split_last)\(arg1\.entries\)", "set is non-empty after every mutator", _lk_recv_set_nonempty),
     (r"half_connection::frame_queue::FrameLog::drain", "VecDeque::drain", r".*", "range end = new_base_id - base_id; caller (cull_log_entries) passes an id inside the log: linked to the span guards of forget_frames/advance_transfer_window (reviewed)", _lk_none),
     (r"half_connection::packet_receiver::assembly_window::fragment_buffer::FragmentBuffer::write", r"\[T\]::copy_from_slice", r".*", "destination range has the source's length by construction ([i*M .. i*M+len]); range validity is C04.c/C03.V (fragment id and size validated)", _lk_none),
     (r"frame::serial::write_handshake_syn", r"\[T\]::clone_from_slice", r".*", "writer side, fixed-size literal into a MAX_FRAME_SIZE buffer; not fed by network input", _lk_none),
